@@ -88,5 +88,11 @@ CLAIMS["C13"] = {
     "note": "Trusted as for C07. D13 repaired in /repo (it refuted idempotence before: C13_idempotent_before_repair_fails). Open: D21-normalform-year-months.",
     "technique": "Lean 4 theorems on the normalization model + AST-level correspondence and idempotence oracle",
 }
+CLAIMS["C10"] = {
+    "text": "Lean theorems: for ANY well-formed holiday database the decode pipeline of Country::holidays returns, per country, exactly the dates the build pipeline of build.rs was given for that country's code and nothing else (decode_encode, via C15's serialization framing theorem), hence embedded contains <-> listed in the source file, and PH/SH selectors see exactly these dates; the country enum, ALL, iso_code and FromStr tables are regenerated from generated.rs on every run by a translator and proved mutually consistent by kernel-checked decide. Tie to the code is exhaustive: every country x kind x every day 1990..2085 compared bit for bit between the embedded calendars and the model pipeline run on the two text files.",
+    "design_ref": "§5 C10",
+    "note": "Trusted: Lean kernel + standard axioms; translator countries2lean.py; models OH/Model/{HolidayDb,Country,CompactCalendar}.lean; harness/driver (the driver reads the data files itself). Assumed: inflate(deflate(x)) = x; chrono date parsing for the shape present in the files. Latent (not reachable with the shipped files, modelled bug for bug): an empty data file would panic in Country::holidays; a ',' in a region name would shift the following calendars.",
+    "technique": "Lean 4 theorems (induction over regions, decide +kernel over generated tables) + translator + exhaustive correspondence with the embedded data",
+}
 ALL = [f"C{i:02d}" for i in range(1, 21)]
 NOT_APPLICABLE = {p: PENDING for p in ALL if p not in CLAIMS}
